@@ -1,4 +1,6 @@
 //! C17 — recursion layers and aggregations chain, with or without cached preparation.
+//! (Version for the tree with findings F10 / F10b repaired: reads `structure_digest`, knows the
+//! refusal of `prove_next_layer`.)
 //!
 //! `p3r-harness layers --seed S --histories N --real quick|thorough|none --out DIR [--corpus DIR]`
 //!
@@ -553,6 +555,12 @@ impl HistRunner {
             }),
             None => st.prep.map(|pj| eng.circ(pj.0).fp),
         };
+        // the structure digest stored by the repaired code (cache variable or prepared cache)
+        let offered_digest: Option<u64> = match (st.slot, st.prep) {
+            (Some(k), _) => self.slots[k].as_ref().map(|e| e.circuit_fingerprint.structure_digest),
+            (None, Some(pj)) => eng.preps.get(&pj).map(|p| p.circuit_fingerprint.structure_digest),
+            _ => None,
+        };
         let obs = {
             let slot = st.slot.map(|k| {
                 // split borrow: take the slot out, put it back after the call
@@ -586,13 +594,7 @@ impl HistRunner {
                 let used_job = eng.by_proof_ident.get(u).copied();
                 let eq = match used_job {
                     Some((ucid, _)) if eng.circ(ucid).cls == job_cls => "1",
-                    _ => {
-                        if st.kind == Kind::Next {
-                            "?C"
-                        } else {
-                            "?K"
-                        }
-                    }
+                    _ => "?K",
                 };
                 self.line.push_str(&format!(
                     " | {} hit={} used={} slot={} eq={}",
@@ -603,7 +605,17 @@ impl HistRunner {
                     eq
                 ));
             }
-            None => self.line.push_str(&format!(" | {} fail={}", st.kind.name(), obs.outcome.tag())),
+            None => {
+                // the refusal of the repaired `prove_next_layer` is an outcome of its own
+                let refused_prep = st.kind == Kind::Next
+                    && st.prep.is_some()
+                    && matches!(&obs.outcome, Outcome::Err(m) if m.contains("NextLayerPrepCache was built for a different verification circuit"));
+                if refused_prep {
+                    self.line.push_str(" | next refused");
+                } else {
+                    self.line.push_str(&format!(" | {} fail={}", st.kind.name(), obs.outcome.tag()));
+                }
+            }
         }
         // ---- implementation oracle
         let stale = offered.map(|(ocid, _)| eng.circ(ocid).cls != job_cls).unwrap_or(false);
@@ -654,6 +666,7 @@ impl HistRunner {
                     "offered_job": offered.map(|o| format!("{}.{}", o.0, o.1)),
                     "current_circuit": eng.circ(st.cid).desc, "offered_circuit": offered.map(|o| eng.circ(o.0).desc.clone()),
                     "fingerprint": format!("{:?}", eng.circ(st.cid).fp), "offered_fingerprint": offered_fp.map(|f| format!("{f:?}")),
+                    "offered_structure_digest": offered_digest.map(|d| format!("{d:016x}")),
                     "cached_outcome": obs.outcome.tag(), "cached_detail": obs.outcome.detail(),
                     "uncached_outcome": ref_outcome.tag(), "replay": replay}));
             }
@@ -960,7 +973,7 @@ impl Sink {
                     self.cases.push(cl.line());
                 }
                 self.cases.push("endcirc".into());
-                self.impl_.push(format!("circ {} fp {} {} {} {} cls {}", c.cid, c.fp.0, c.fp.1, c.fp.2, c.fp.3, c.cls));
+                self.impl_.push(format!("circ {} fp {} {} {} {} cls {} sid {}", c.cid, c.fp.0, c.fp.1, c.fp.2, c.fp.3, c.cls, c.cid));
             }
             None => {
                 self.cases.push(format!("ext {} {} {} {} {} {}", c.cid, c.fp.0, c.fp.1, c.fp.2, c.fp.3, c.cls));
